@@ -784,11 +784,10 @@ impl TypeInfo {
             ));
         }
         let ftype = self.function_to_functype(fdecl)?;
-        if self
-            .func_types
-            .insert(fdecl.name.clone(), Arc::new(ftype))
-            .is_some()
-        {
+        // Validate everything before recording the signature: a rejected declaration must not
+        // leave (or overwrite) an entry, and the merge expression must not see the function
+        // that is being declared.
+        if self.func_types.contains_key(&fdecl.name) {
             return Err(TypeError::FunctionAlreadyBound(
                 fdecl.name.clone(),
                 fdecl.span.clone(),
@@ -804,23 +803,25 @@ impl TypeInfo {
         }
         bound_vars.insert("old", (fdecl.span.clone(), output_type.clone()));
         bound_vars.insert("new", (fdecl.span.clone(), output_type.clone()));
+        let merge = match &fdecl.merge {
+            // Merge expressions run as part of action-side table updates:
+            // writes are allowed, but live DB reads would be untracked by
+            // seminaive rule execution.
+            Some(merge) => Some(self.typecheck_standalone_expr(
+                symbol_gen,
+                merge,
+                &bound_vars,
+                Context::Write,
+            )?),
+            None => None,
+        };
+        self.func_types.insert(fdecl.name.clone(), Arc::new(ftype));
 
         Ok(ResolvedFunctionDecl {
             name: fdecl.name.clone(),
             subtype: fdecl.subtype,
             schema: fdecl.schema.clone(),
-            merge: match &fdecl.merge {
-                // Merge expressions run as part of action-side table updates:
-                // writes are allowed, but live DB reads would be untracked by
-                // seminaive rule execution.
-                Some(merge) => Some(self.typecheck_standalone_expr(
-                    symbol_gen,
-                    merge,
-                    &bound_vars,
-                    Context::Write,
-                )?),
-                None => None,
-            },
+            merge,
             cost: fdecl.cost,
             unextractable: fdecl.unextractable,
             internal_hidden: fdecl.internal_hidden,
